@@ -254,7 +254,7 @@ def netlist_cases(draw, max_nodes):
         # (i<k>, n<k>, u<k>, grp<k>): two ports of one wrapper with the same name would be a user error
         while n in used or re.match(r'^(i|n|u|grp)\d+$', n):
             k += 1
-            n = '{}{}'.format(base, k)
+            n = '{}_{}'.format(base, k) if base in ('i', 'n', 'u', 'grp') else '{}{}'.format(base, k)
         used.add(n)
         return n
     if mode != 'collide':
